@@ -976,3 +976,28 @@ Proof.
     destruct (term_lines_props (term_lines (t0 :: tr0)) T1) as (_ & _ & T3'). rewrite (T3' Hne), T2.
     unfold R. rewrite ensure_nl_node. cbn [children]. rewrite (T3 ltac:(discriminate)). reflexivity.
 Qed.
+
+(* ---------------------------------------------------------------- summary statements *)
+(* the document read without errors, as far as these theorems need it *)
+Definition token_doc (ind : indentation) (t : tree) : bool :=
+  match t with Node ROOT rs => forallb (rchild_ok ind) rs | _ => false end.
+
+Theorem token_doc_ws ind iel mll psort esort t : token_doc ind t = true ->
+  esort_ok ind iel mll esort -> psort_ok ind iel mll psort esort ->
+  let R := d_out ind iel mll psort esort (children t) in
+  doc_ws fixed psort (Some (para_ws fixed ind iel mll esort None)) t = Ok R /\
+  token_doc ind R = true /\
+  doc_ws fixed psort (Some (para_ws fixed ind iel mll esort None)) R = Ok R.
+Proof.
+  intros Ht Hes Hps R. destruct t as [|k rs]; [discriminate|]. destruct k; try discriminate. cbn [token_doc children] in *.
+  destruct (d_out_idem ind iel mll psort esort rs Ht Hes Hps) as [A B]. fold R in A, B.
+  assert (ER : R = Node ROOT (children R)) by (unfold R, d_out; rewrite ensure_nl_node; reflexivity).
+  split; [apply doc_ws_tokens, Ht|]. split; [rewrite ER; exact A|].
+  rewrite ER at 1. rewrite (doc_ws_tokens ind iel mll psort esort (children R) A), B. reflexivity.
+Qed.
+
+(* sorting the fields by name meets the premise *)
+Lemma e_out_key ind iel mll e : entry_ok ind e = true -> entry_key (e_out ind iel mll e) = entry_key e.
+Proof.
+  intros H. destruct (entry_ok_shape ind e H) as (cs & -> & Ht & _). unfold e_out. cbn [children]. apply (entry_out_shape ind iel mll cs Ht).
+Qed.
